@@ -22,7 +22,7 @@ Proof. rewrite <- cid_eqb_eq. destruct (cid_eqb a b); split; congruence. Qed.
 Definition cellof (g : rgeo) (c : cid) : cellrec :=
   match c with
   | Atm0 => mkCell Atm0 (gatmvol g) None
-  | Cell O i j => mkCell (Cell 0 i j) (gatmvol g) (Some (ccx g i, ccy g j, goz g))
+  | Cell O i j => mkCell (Cell 0 i j) (gatmvol g) (Some (px g i j, py g i j, gatmz g))
   | Cell k i j => rock_cell g k (i, j)
   end.
 Definition present (g : rgeo) (c : cid) : Prop :=
